@@ -56,7 +56,7 @@ ASSUMPTIONS = ['transport = marshal version 2 exactly as sandbox.Sandbox._send_t
                'importing engine internals; it is still sent as a client cell ["l", ...])']
 TECHNIQUE = 'round-trip PBT + in-memory transport differential'
 BUDGET = {'quick': dict(examples=600, shards=8, max_seconds=60),
-          'thorough': dict(examples=9600, shards=16, max_seconds=600)}
+          'thorough': dict(examples=9600, shards=16, max_seconds=1800)}
 MIN_NONTRIVIAL = 10
 
 PROD_RECURSION_LIMIT = 1000
